@@ -808,6 +808,10 @@ impl World {
             "addwindow" => self.wires[side_idx(t[1])].add_window(parse_n(t[2])),
             "fault" => {
                 let w = &self.wires[side_idx(t[1])];
+                // same trace line as a scheduled fault: the observer of a sink fault is the sending side, of a stream
+                // fault the receiving side of that wire
+                let observer = if t[2] == "sink" { t[1] } else if t[1] == "A" { "B" } else { "A" };
+                tr(format!("fault {} {} at=now t={}", observer, t[2], crate::trace::now_ms()));
                 match t[2] {
                     "sink" => w.fault_sink(),
                     "stream" => w.fault_stream(StreamFault::Error),
